@@ -360,9 +360,24 @@ func runC20(c *Ctx) {
 	}
 	// ---- PatternMatchVariance ----
 	limits := [][2]int64{{1, 4}, {1, 2}, {7, 10}, {39, 50}, {1, 1}, {12, 25}}
+	// Half of the calls hand the pattern and the observed runs over in SHARED buffers (one backing array for every
+	// pattern length / content): callers such as the readers keep counters in a reused scratch slice and slice
+	// patterns out of tables, so the score must depend on the VALUES it is given, not on the identity of the slices
+	// or on what was scored at that address before.
+	pbuf, cbuf := make([]int, 16), make([]int, 16)
+	calls := 0
 	pmvCase := func(cs, ps []int, lim [2]int64) {
 		mv := float64(lim[0]) / float64(lim[1])
-		goOut := Safe(func() string { return fmtF(oned.PatternMatchVariance(cs, ps, mv)) })
+		calls++
+		acs, aps := cs, ps
+		if calls%2 == 0 && len(ps) <= len(pbuf) && len(cs) <= len(cbuf) {
+			aps = pbuf[:len(ps)]
+			copy(aps, ps)
+			acs = cbuf[:len(cs)]
+			copy(acs, cs)
+			c.Note("pmv:shared-backing-arrays")
+		}
+		goOut := Safe(func() string { return fmtF(oned.PatternMatchVariance(acs, aps, mv)) })
 		T, Pq := 0, 0
 		for i, x := range cs {
 			T += x
@@ -374,8 +389,12 @@ func runC20(c *Ctx) {
 		mf, _ := margin.Float64()
 		okv := true
 		switch {
+		case T == 0 && Pq > 0:
+			// no pixels at all: "fewer pixels than pattern modules" -> infinite (never 0/0 = NaN, never 0)
+			okv = goOut == "inf"
+			c.Note("pmv:no-pixels")
 		case T == 0:
-			okv = true // degenerate: no pixels at all (0/0); the statement does not cover it
+			okv = true // empty pattern and no pixels: outside the statement
 		case mf < 1e-9 && !(exact && margin.Sign() == 0):
 			c.Note("pmv:borderline-skipped")
 		case inf:
